@@ -473,6 +473,8 @@ pub const FAULT_SENT: usize = 1000;
 ///   rst_mid        HEADERS 200 (content-length FAULT_BODY) + FAULT_SENT bytes of DATA, then RST_STREAM(INTERNAL_ERROR)
 ///   close_mid      the same, then the TCP connection is closed
 ///   stall_mid      the same, then nothing more on this stream (the connection keeps serving other streams)
+///   overrun_mid    the same, then a DATA frame that takes the body beyond the announced content-length
+///   bad_trailers_mid  the same, then a malformed trailer block (a pseudo-header field) with END_STREAM
 ///   goaway_mid     the same, then GOAWAY(NO_ERROR, last stream id = this stream), then the rest of the body with END_STREAM
 /// `log` receives one line per event (`conn N`, `req <sid> <path>`, `fault <sid> <name>`, `rst-in <sid> <code>`).
 pub fn h2c_fault_backend(listener: TcpListener, log: std::sync::mpsc::Sender<String>) {
@@ -569,6 +571,16 @@ pub fn h2c_fault_backend(listener: TcpListener, log: std::sync::mpsc::Sender<Str
                                 }
                                 "stall_mid" => {
                                     let _ = s.write_all(&partial);
+                                }
+                                "overrun_mid" => {
+                                    // more DATA than the announced content-length (RFC 9113 8.1.1: malformed)
+                                    let _ = s.write_all(&partial);
+                                    let _ = s.write_all(&frame(T_DATA, 0, f.sid, &vec![b'o'; FAULT_BODY]));
+                                }
+                                "bad_trailers_mid" => {
+                                    // trailers carrying a pseudo-header field (RFC 9113 8.1: malformed), END_STREAM
+                                    let _ = s.write_all(&partial);
+                                    let _ = s.write_all(&frame(T_HEADERS, 5, f.sid, &[0x88]));
                                 }
                                 "goaway_mid" => {
                                     let _ = s.write_all(&partial);
